@@ -13,15 +13,17 @@
               leaf types the arithmetic fact (every grid value round-trips) remains the hypothesis num_rt: it is false
               beyond 2^51 (C02_refuted_scaled_huge, open finding) and exercised by the correspondence.
    (json kind)  checked by Run.check_case (kind_ok, strict_json on the model's export) and by the oracle; no theorem.
-   (client) the client side type (string rebuild repaired by 414a5ee): C02_client_string_faithful; otherwise
-           correspondence + oracle only.
+   (client) the client side type (string rebuild repaired by 414a5ee): C02_client_imports_like_node - for every tree
+           whose enums list their members by ascending code, import_value of the rebuilt type equals import_value of
+           the node's type on EVERY json value; hence C02_client_roundtrip_except_scaled: the client obtains from the
+           exported form the very value the node obtains, which validates to a value == v.
    (text)  refuted for -0.0 (C02_refuted_negzero_text); 1-tuples (repaired by 5f8afed) are written (x,) and accepted
            back: C02_one_tuple_text_accepted; otherwise correspondence + oracle only.  setParameterFromString (repaired by 7a693b7: it now exports) is from_string
            followed by the wire round trip: C02_setparam_roundtrip_except_scaled. *)
 From Coq Require Import ZArith NArith Bool List.
 Import ListNotations.
 Require Import FV.Gen.C02 FV.Base.F64 FV.Base.PyVal FV.C01.Model FV.C01.Lemmas FV.C02.Model FV.C02.Run FV.C02.Lemmas
-  FV.C02.LemmasNum FV.C02.Refuted.
+  FV.C02.LemmasNum FV.C02.LemmasClient FV.C02.Refuted.
 
 (* obligations on the facts regenerated from /repo (Gen/C02.v) *)
 Theorem C02_source_facts :
@@ -77,6 +79,23 @@ Print Assumptions C02_one_tuple_text_accepted.
 Theorem C02_client_string_faithful : forall minc maxc u, client_of (TString minc maxc u) = Ok (TString minc maxc u).
 Proof. reflexivity. Qed.
 Print Assumptions C02_client_string_faithful.
+
+(* get_datatype(export_datatype()) imports exactly like the original, for every offered json value *)
+Theorem C02_client_imports_like_node : forall E d, enums_sorted d -> forall dc, client_of d = Ok dc ->
+  forall j, dt_import E dc j = dt_import E d j.
+Proof. exact client_import_same. Qed.
+Print Assumptions C02_client_imports_like_node.
+
+Theorem C02_client_roundtrip_except_scaled : forall E C, b64_law E C ->
+  forall d dc, num_leaves (leaf_ok E C) d -> enums_sorted d -> client_of d = Ok dc -> forall v, valid d v = true ->
+  exists j w v', dt_export C d v = Ok j /\ dt_import E dc j = Ok w /\ dt_import E d j = Ok w /\
+                 dt_validate d w PNone = Ok v' /\ py_eq v v'.
+Proof.
+  intros E C HB d dc HL HS Hc v Hv.
+  destruct (wire_roundtrip_except_scaled E C HB d HL v Hv) as (j & w & v' & H1 & H2 & H3 & H4 & _).
+  exists j, w, v'. rewrite (client_import_same E d HS dc Hc j). auto.
+Qed.
+Print Assumptions C02_client_roundtrip_except_scaled.
 
 (* non-vacuity: a nested type with int and double leaves satisfies every hypothesis of the round trip *)
 Definition demo_d : dtype :=
